@@ -139,7 +139,7 @@ def _jb(x):
     return x
 
 
-def network(rng, size=None, genes=None, want="any", finite=False, allow_forced=True, gene_ids=None, p_cycle=0.6):
+def network(rng, size=None, genes=None, want="any", finite=False, allow_forced=True, gene_ids=None, p_cycle=0.6, big_choices=None):
     """Random network recipe.  want in {"any","feasible-ish"} only biases construction;
     the exact oracle labels the result afterwards."""
     size = size or rng.randint(1, 4)
@@ -156,7 +156,7 @@ def network(rng, size=None, genes=None, want="any", finite=False, allow_forced=T
         rxns.append(r)
         return r
 
-    big = rng.choice([1000, 1000, 1000, 100, 50])
+    big = rng.choice(big_choices or [1000, 1000, 1000, 100, 50])  # big_choices: e.g. capacities beyond the configured default bounds
 
     def irr():
         return (0, rng.choice([big, big, 10, 20, INF if not finite else big]))
@@ -511,3 +511,49 @@ def io_model(rng, id_styles=None, with_groups=True, finite=False):
             groups.append(cobra.core.Group("grp_gene", name="genes", members=[model.genes[0]], kind=rng.choice(kinds)))
         model.add_groups(groups)
     return model, rec
+
+
+def reordered_solution(sol, rng, how=None):
+    """The same reference solution with its Series in another index order (sorted by id,
+    reversed or shuffled): a reference is addressed by reaction id, not by position - users
+    rebuild them from files, sort_index() them, or take them from a model with another order."""
+    import cobra
+
+    ids = list(sol.fluxes.index)
+    how = how or rng.choice(["sorted", "reversed", "shuffled"])
+    if how == "sorted":
+        new = sorted(ids, reverse=(ids == sorted(ids)))
+    elif how == "reversed":
+        new = ids[::-1]
+    else:
+        new = ids[:]
+        rng.shuffle(new)
+    kw = {}
+    if getattr(sol, "reduced_costs", None) is not None:
+        kw["reduced_costs"] = sol.reduced_costs.reindex(new)
+    if getattr(sol, "shadow_prices", None) is not None:
+        kw["shadow_prices"] = sol.shadow_prices
+    return cobra.Solution(objective_value=sol.objective_value, status=sol.status, fluxes=sol.fluxes.reindex(new), **kw)
+
+
+def other_reference(model, rng):
+    """A feasible flux distribution that is (in general) neither the FBA vertex nor the pFBA
+    solution: the optimum of a random linear objective on a copy.  None when that fails."""
+    import cobra
+
+    m = model.copy()
+    rxns = list(m.reactions)
+    if not rxns:
+        return None
+    try:
+        m.objective = {r: rng.choice([-2, -1, 1, 1, 2]) for r in rng.sample(rxns, min(len(rxns), rng.randint(1, 3)))}
+        m.objective_direction = rng.choice(["max", "min"])
+        s = m.optimize()
+    except Exception:
+        return None
+    if s.status != "optimal":
+        return None
+    from cobra.util.solver import linear_reaction_coefficients
+
+    val = sum(k * float(s.fluxes[r.id]) for r, k in linear_reaction_coefficients(model).items())
+    return cobra.Solution(objective_value=val, status="optimal", fluxes=s.fluxes.copy())
